@@ -65,6 +65,24 @@ pub fn run_at(text: &str, gram: Gram, incomplete: bool, cap: Option<usize>, flag
     (r, info)
 }
 
+/// one raw-parser run that does not touch the table's configuration (entries of earlier calls stay where the library leaves them)
+fn run_plain(text: &str, gram: Gram, incomplete: bool) -> R {
+    let r = lib(|| {
+        let span = Span::new_extra(text, SpanInfo::default());
+        match (gram, incomplete) {
+            (Gram::Sv, false) => sv_parser(span).map(|(r, t)| (exact_skeleton(&t), r.location_offset())).map_err(|_| ()),
+            (Gram::Sv, true) => sv_parser_incomplete(span).map(|(r, t)| (exact_skeleton(&t), r.location_offset())).map_err(|_| ()),
+            (Gram::Lib, false) => lib_parser(span).map(|(r, t)| (exact_skeleton(&t), r.location_offset())).map_err(|_| ()),
+            (Gram::Lib, true) => lib_parser_incomplete(span).map(|(r, t)| (exact_skeleton(&t), r.location_offset())).map_err(|_| ()),
+        }
+    });
+    match r {
+        Ok(Ok((s, rest))) => R::Ok(s, rest),
+        Ok(Err(())) => R::Err,
+        Err(p) => R::Panic(p.0),
+    }
+}
+
 /// Run in a child process (`svverif memo1`) with a wall-clock bound; the child is killed on expiry.
 /// None = did not finish (inconclusive for the caller).
 fn run_bounded(text: &str, gram: Gram, incomplete: bool, cap: Option<usize>, flag_aware: bool, ms: u64) -> Option<(R, RunInfo)> {
@@ -461,6 +479,43 @@ pub fn run_case(env: &Env, ctx: &mut Ctx, idx: u64) {
         }
         let (sig, note) = crate::memo_cfg::attribute(env, &sig);
         ctx.violation("capacity-dependence", &sig, &format!("{}{}", m, note), w);
+    }
+    // ---- a buffer overwritten in place: the keys of the table are addresses, so entries must not outlive a call.
+    // Text A is parsed, then a text of the same length at the same address (all four raw entry points as the
+    // second call); the reference is the second text parsed alone from another allocation with an unbounded table.
+    if rng.chance(1, 3) {
+        if let Some(edited) = mutate::same_length_edit(&text, &mut rng) {
+            let second_incomplete = rng.chance(1, 2);
+            let (want, _) = run_at(&edited, gram, second_incomplete, None, false);
+            let mut buf = String::with_capacity(text.len() + 8);
+            buf.push_str(&text);
+            let p0 = buf.as_ptr();
+            // (the hook that sets the capacity drops all entries, so these two calls leave the table alone:
+            // default capacity, whatever the first call stored is still there when the second starts)
+            let cap = Some(0);
+            let _ = run_plain(&buf, gram, incomplete);
+            buf.clear();
+            buf.push_str(&edited);
+            let got = run_plain(&buf, gram, second_incomplete);
+            ctx.count("in_place_edits", 1);
+            if buf.as_ptr() == p0 {
+                ctx.count("in_place_edits_at_same_address", 1);
+            }
+            if got != want {
+                // the second text alone at the same capacity tells a stale table from an ordinary capacity dependence
+                let (alone, _) = run_at(&edited, gram, second_incomplete, cap, false);
+                if alone == want {
+                    let m = format!(
+                        "a text parsed after another text of the same length at the same address gives {} but {} when parsed alone (second call {})",
+                        brief(&got),
+                        brief(&want),
+                        if second_incomplete { "incomplete" } else { "strict" }
+                    );
+                    let w = Obj::new().s("first_text", &text).s("second_text", &edited).s("grammar", if gram == Gram::Sv { "sv" } else { "lib" }).b("second_incomplete", second_incomplete).done();
+                    ctx.violation("stale-memo-across-calls", "", &m, w);
+                }
+            }
+        }
     }
     if any_evictions {
         ctx.nontrivial(hash_strs(&[&text, if incomplete { "i" } else { "s" }]));
